@@ -14,7 +14,7 @@ RULE = ('Inputs: typed generator, untyped grammar generator and clash-injected t
         'each of them (compositions of depth 2); each returned tree is walked. evaluations = trees walked; '
         'non-trivial = tree with an operator/function whose parameter type is narrower than the operand kind\'s '
         'default; distinct = shape x producing API chain.')
-RULE_ADDED = ' Since the seeding rounds: quantifiers over tiny reference sets, free variables named like a neighbouring bound variable, own-alias/bare spellings of one field at the property entry point, human-written corpus.'
+RULE_ADDED = ' Since the seeding rounds: quantifiers over tiny reference sets, free variables named like a neighbouring bound variable, own-alias/bare spellings of one field at the property entry point, human-written corpus, quantifiers over literal domains whose variable occurs several times at kinds of its own.'
 ASSUMPTIONS = ['signature tables of DESIGN.md Appendix A.2/A.3 are the documented typing; "same reference" is computed '
                'structurally (same accessor path from the same base, quantifier scope respected)']
 FLOORS = {
@@ -161,6 +161,34 @@ def run(ctx):
                 body = ('bin', gen.pick(rng, ('and', 'or', 'implies')), eq, narrow) if rng.random() < 0.6 else ('bin', 'and', narrow, eq)
                 e = ('quant', gen.pick(rng, ('forall', 'exists')), 'qi', ('set', gen.pick(rng, ((r1,), (r1, r1), (r1, r2)))), body)
         forced_level = None
+        if n % 19 == 0 and k != 4:
+            # a quantifier over a literal domain whose variable occurs two or three times, each occurrence at a kind of
+            # its own (some inside the element type, some outside, in any order), with or without a generic occurrence
+            from . import c05
+            dk = gen.pick(rng, ('NUMBER', 'NUMBER', 'STRING', 'BOOL', 'RANGE'))
+            lits = {'NUMBER': (A.num('1'), A.num('2'), A.num('0.5')), 'STRING': (A.string('a'), A.string('zz')),
+                    'BOOL': (A.boolean(True), A.boolean(False))}
+            if dk == 'RANGE':
+                dom = ('range', A.num('0'), A.num(gen.pick(rng, ('1', '3', '10'))), rng.random() < 0.3, rng.random() < 0.3)
+            else:
+                dom = ('set', tuple(gen.pick(rng, lits[dk]) for _ in range(rng.randrange(1, 4))))
+            v = gen.pick(rng, ('x', 'k', 'qv'))
+            elem = 'NUMBER' if dk == 'RANGE' else dk
+
+            def use():
+                r = rng.random()
+                if r < 0.2:
+                    return ('bin', gen.pick(rng, ('=', '!=')), A.var(v), A.var('y'))
+                if r < 0.35:
+                    return ('bin', '=', A.var(v), gen.pick(rng, lits[gen.pick(rng, ('NUMBER', 'STRING', 'BOOL'))]))
+                return c05.USES[gen.pick(rng, (elem, elem, 'NUMBER', 'STRING', 'BOOL'))](A.var(v))
+            body = use()
+            for _ in range(rng.randrange(1, 3)):
+                body = ('bin', gen.pick(rng, ('and', 'or', 'implies')), body, use()) if rng.random() < 0.5 \
+                    else ('bin', gen.pick(rng, ('and', 'or')), use(), body)
+            e = ('quant', gen.pick(rng, ('forall', 'exists')), v, dom, body)
+            aliases = ['y']
+            ctx.count('multi_use_bound_variable_cases')
         if n % 17 == 0 and k != 4:
             # a free variable that has the name of a variable bound by a quantifier next to it, used on both sides of
             # the quantifier at kinds that are sometimes compatible and sometimes not (free and bound occurrences are
